@@ -17,7 +17,9 @@ DRIVER = 'DeepModel/Driver/C16.lean'
 BUDGET = {'quick': 1500, 'thorough': 15000}
 RULE = ('templates built from segment lists: literal runs (ASCII, unicode incl. non-BMP, quotes, backslashes, newlines, '
         'single braces — written doubled), 0-5 fields naming locals, host-module globals, attribute / index / call '
-        'expressions, failing expressions (NameError, ZeroDivisionError, KeyError, BaseException subclasses), with '
+        'expressions, names bound BOTH as a frame local and as a module global or builtin with different values (the '
+        'local must win), a host global shadowing a builtin, failing expressions (NameError, ZeroDivisionError, KeyError, '
+        'BaseException subclasses), with '
         'conversions !r !s !a and str format specs (fill, align, width, precision); a second stream of raw templates '
         '(character soup over braces, !, :, brackets, digits, plus hand-picked malformed ones: single braces, unclosed '
         'fields, bad conversions, numeric-only specs, numbering clashes); each through the log-only action '
@@ -44,12 +46,17 @@ LITS = ['a', 'value ', ' = ', 'x=', '{', '}', '{}', '{{', '}}', 'é', 'ünï', '
         '\n', '\t', 'end.', '[', ']', '!', ':', 'a!b:c', '[deep] ', 'λ→', '0', '{0}', 'tail}', '{head']
 LOCALS = [['n', 5], ['neg', -12], ['f', 2.5], ['s', 'text'], ['u', 'ünï😀'], ['q', "it's \"q\""], ['e', ''],
           ['lst', [3, 1, 2]], ['d', {'k': 'v', 'a:b': 'colon', 'n': 7, '}': 'brace'}], ['o', {'obj': {'name': 'bob', 'age': 3}}],
-          ['t', True], ['nothing', None], ['nl', 'line1\nline2'], ['bs', 'back\\slash'], ['tup', {'tuple': [1, 'a']}]]
-GLOBALS = {'GNUM': 42, 'GSTR': 'glob', 'uuid': 'host-uuid'}
+          ['t', True], ['nothing', None], ['nl', 'line1\nline2'], ['bs', 'back\\slash'], ['tup', {'tuple': [1, 'a']}],
+          # locals that shadow a module global / a builtin of the same name (the local must win, as at that line)
+          ['GSH', 'local-shadow'], ['GN2', 7], ['id', 'L:id'], ['type', 'L:type'], ['abs', 'L:abs'], ['sum', 15]]
+GLOBALS = {'GNUM': 42, 'GSTR': 'glob', 'uuid': 'host-uuid', 'GSH': 'global-shadowed', 'GN2': 70000,
+           'ONLYG': 'only-global', 'min': 'G:min'}
 FIELDS_OK = ['n', 'neg', 'f', 's', 'u', 'q', 'e', 'lst', 'd', 'o', 't', 'nothing', 'nl', 'bs', 'tup', 'n + 1', 'len(lst)',
              'lst[0]', 'lst[-1]', "d['k']", 'd["a:b"]', "d['n'] + n", "d['}']", 'o.name', 'o.age * 2', 'twice(n)', 'ident(s)',
              'GNUM', 'GSTR', 'uuid', 'GSTR.upper()', 's * 2', ' n ', 'n > 3', 'str(f)', "'%d' % n", '[x for x in lst]',
-             's[1]', 'u[0]', 'max(lst)', '0', '7', '(n)', 'lst[0]  ', 'o', 'tup[1]']
+             's[1]', 'u[0]', 'max(lst)', '0', '7', '(n)', 'lst[0]  ', 'o', 'tup[1]',
+             'GSH', 'GN2', 'id', 'type', 'abs', 'sum', 'GSH.upper()', 'GN2 + 1', 'ONLYG', 'min', 'GSH', 'id', 'GN2', 'sum + n',
+             '[GN2 for _ in lst]', "'%s/%s' % (GSH, ONLYG)"]
 FIELDS_FAIL = ['nope', 'n / 0', "d['missing']", 'd[1]', 'lst[99]', 'o.nothing', 'boom()', "boom('KeyboardInterrupt', 'stop')",
                "boom('HostInterrupt', 'halt')", "boom('SystemExit', 3)", 'int(s)', 'len(n)', 'n +', 'FrameType', 'time_ns()',
                "boom('GeneratorExit')", 'import os']
@@ -199,6 +206,9 @@ def corpus():
                                               ['lit', ' ft='], ['field', 'FrameType', None, '']]),
         dict(b, kind='tpl', logger='default', mode='log', segs=[['lit', 'n is '], ['field', 'n', None, '']]),
         dict(b, kind='tpl', cfg={'fire_count': '2', 'fire_period': '0'}, hits=[5, 6, 7], segs=[['lit', 'x'], ['field', 's', None, '']]),
+        dict(b, kind='tpl', segs=[['lit', 'shadow '], ['field', 'GSH', None, ''], ['lit', ' '], ['field', 'id', None, ''], ['lit', ' '],
+                                  ['field', 'GN2 + 1', None, ''], ['lit', ' '], ['field', 'min', None, ''], ['lit', ' '],
+                                  ['field', 'ONLYG', None, '']]),
         dict(b, kind='raw', tpl='{n'), dict(b, kind='raw', tpl='}'), dict(b, kind='raw', tpl='{n:d}'),
         dict(b, kind='raw', mode='log', tpl='{}{0}'), dict(b, kind='tpl', segs=[]),
         # budget spent by the frame: fields with fresh values still render their values
